@@ -1,6 +1,6 @@
 import H264.AnnexBShapes
 import H264.AnnexBOps
-import H264.ByteProof
+import H264.ByteProofC18
 /-! # C18 — Fragment handlers are only ever given non-empty slices and meaningful calls
 
 `Call.WellShaped c` : every slice of the call is non-empty, and a call without slices has `end = true`.
